@@ -2,13 +2,17 @@
 from pyvc.runner import Prop, Bounded, script_replay
 import contracts.guesser_core as gc
 import contracts.guesser_restore as gr
+import contracts.guesser_session as gs
+import contracts.guesser_main as gm
+import contracts.guesser_expand as ge
 
 M = gc.MOD + ':PcfgGrammar.'
 Q = gc.PQ + ':'
 
 
 def lemmas():
-    return gr.addrange_r1.lemmas()
+    import contracts.guesser_lemmas as gl
+    return gr.addrange_r1.lemmas() + gl.queue_step.lemmas() + gs.flat_ext.lemmas() + ge.catvals_split.lemmas()
 
 
 PROP = Prop(
@@ -16,7 +20,9 @@ PROP = Prop(
     functions=[M + '_find_prob', M + 'is_parent_around', M + '_recursive_restore_prob_order', M + 'restore_prob_order',
                M + 'initalize_base_structures',
                Q + 'PcfgQueue.insert_queue', Q + 'PcfgQueue.restore_base_item', Q + 'PcfgQueue.update_save_config',
-               Q + 'PcfgQueue.__init__'],
+               Q + 'PcfgQueue.__init__', Q + 'PcfgQueue.next',
+               gs.CS + ':CrackingSession._save_session', gs.CS + ':CrackingSession.run', 'pcfg_guesser:load_save', 'pcfg_guesser:main'],
+    setup=gs.install,
     lemmas=lemmas,
     level='other',
     replay=script_replay('replay/restore.py', default_fn='CUTS'),
@@ -35,7 +41,8 @@ PROP = Prop(
     explanation='Deductive (all inputs): is_parent_around is True exactly when a parent has probability <= the saved '
                 'probability; the restore walk only saves nodes with min <= P <= M, P attached, and no such parent (R1); '
                 'restore_base_item/__init__ put exactly the saved nodes into the heap, so the restored queue satisfies '
-                "C01's invariant with max_probability = M (order, nothing above M); update_save_config stores repr(max_probability). "
+                "C01's invariant with max_probability = M (order, nothing above M); update_save_config stores repr(max_probability); the session loop "
+                'saves after a pop and before that item is guessed (run: quit_saves_unguessed_position); main() starts a resumed session only when the saved uuid equals the ruleset uuid. '
                 'Bounded (labelled, not counted as proved): completeness of the walk, duplicate-freeness and the '
                 'tied-group-only repeat clause over every cut point of small tie-rich rulesets, two cycles.',
 )
